@@ -1691,3 +1691,15 @@ func init() {
 		}
 	})
 }
+
+func init() {
+	wrapRun("C17", func(c *core.Ctx) {
+		// R17f: whether a node is tracked as the candidate — and therefore removed once it is delivered or rejected —
+		// depends on the selection state only (= C04 R04i): a node that a private shortcut declines to mark stays linked
+		// under its parent for ever (seed C17-7: attribute-only filters decided at the start tag)
+		if c.CountRule("R17f") == 0 {
+			importRules(c, "C04", map[string]string{"R04i": "R17f"})
+			c.Floor("R17f", 6, "marking / delivering / rejecting decisions of the two stream readers")
+		}
+	})
+}
